@@ -225,12 +225,19 @@ def sl2c_to_so31(ctx):
     ctx.ensure_eq('form_scaled_by_abs_det_squared', MA.T @ J @ MA, absdet2 * J, tol=1e-6)
 
 
-@rcontract(P, "block_include", instances=[dict(n=2, m=3), dict(n=2, m=4)], thorough=[dict(n=3, m=5)],
+@rcontract(P, "block_include", instances=[dict(n=2, m=3), dict(n=2, m=4), dict(n=2, m=2), dict(n=3, m=3), dict(n=1, m=2)], thorough=[dict(n=3, m=5), dict(n=4, m=4)],
            functions=["geometry_tools/lie/core.py:block_include"])
 def block_include(ctx, n, m):
     A, B = mats(ctx, 'A', n), mats(ctx, 'B', n)
     ctx.ensure_eq('multiplicative', lie.block_include(A @ B, m), lie.block_include(A, m) @ lie.block_include(B, m))
     ctx.ensure_eq('identity', lie.block_include(eye(n, ctx), m), np.identity(m))
+    # the image is the block matrix diag(A, 1): A in the leading block (the trivial inclusion m = n returns A itself), identity in the complementary block, zeros elsewhere
+    img = lie.block_include(A, m)
+    ctx.ensure_true('shape', img.shape == (m, m))
+    ctx.ensure_eq('leading_block_is_A', img[:n, :n], A)
+    if m > n:
+        ctx.ensure_eq('complementary_block_is_identity', img[n:, n:], np.identity(m - n))
+        ctx.ensure_eq('off_diagonal_blocks_zero', np.concatenate([img[:n, n:].ravel(), img[n:, :n].ravel()]), np.zeros(2 * n * (m - n)))
     A2 = mats(ctx, 'C', n, shape=(2,))
     r = lie.block_include(A2, m)
     for i in range(2):
